@@ -53,6 +53,34 @@ def set_order_case(n, elems, perm_index, kind, with_str):
     return True
 
 
+class _Partial:
+    """element type whose `<` is a partial order (as for sets): the product order of two ints"""
+
+    def __init__(self, a, b, tag):
+        self.a, self.b, self.tag = a, b, tag
+
+    def __lt__(self, other):
+        return self.a < other.a and self.b < other.b
+
+    def __repr__(self):
+        return f"P{self.tag}"
+
+
+def partial_order_case(n, coords, perm_index):
+    """n elements with a partial `<` (sorted() does not raise): the generated order must not depend on the iteration order"""
+    world.reset({})
+    elems = [_Partial(coords[2 * i], coords[2 * i + 1], i) for i in range(n)]
+    order = None
+    for k, p in enumerate(itertools.permutations(range(n))):
+        if perm_index == k:
+            order = p
+    with mock.patch("builtins.repr", CR.mocked_code_repr):
+        out1 = CR.sort_set_values(list(elems))
+        out2 = CR.sort_set_values([elems[i] for i in order])
+    PathLog.record(f"partial{n}{order}{out1}", nontrivial=order != tuple(range(n)), sample={"elements": n, "second_order": list(order), "partial_order": "product order of two symbolic ints", "output": out1})
+    return out1 == out2
+
+
 class _Run:
     def __init__(self, returncode, stdout):
         self.returncode = returncode
@@ -170,7 +198,9 @@ def hash_seed_processes():
             "    assert {('x', 1), ('a', 2)} == snapshot()\n    assert {'k2': 1, 'k1': {1.5, 'm', None}} == snapshot()\n    assert [set(), {b'b', 'a', 1}] == snapshot()\n"
             "    assert {frozenset({'x', 'b'}), frozenset({'p', 'y'}), frozenset({'k', 'z'}), 1j} == snapshot()\n"
             "    assert {frozenset({'x', 'b', 'q'}), frozenset({'p', 'y'}), ('t', frozenset({'u', 'v', 'w'})), None} == snapshot()\n"
-            "    assert frozenset({frozenset({'aa', 'bb', 'cc'}), frozenset({'dd', 'ee'}), 'zz'}) == snapshot()\n")
+            "    assert frozenset({frozenset({'aa', 'bb', 'cc'}), frozenset({'dd', 'ee'}), 'zz'}) == snapshot()\n"
+            "    assert {frozenset({'a', 'b'}), frozenset({'c'}), frozenset({'b', 'd'}), frozenset({'e', 'f', 'g'})} == snapshot()\n"
+            "    assert {(frozenset({'x', 'y'}), 1), (frozenset({'z'}), 0), (frozenset({'w', 'v'}), 2)} == snapshot()\n")
     outs = []
     for seed in ("0", "1", "2", "3", "12345"):
         rc, out, after, _ = world.real_pytest({"test_a.py": text}, ["--inline-snapshot=create"], env={"PYTHONHASHSEED": seed})
@@ -179,13 +209,20 @@ def hash_seed_processes():
     return len(set(outs)) == 1 and "snapshot()" not in outs[0]
 
 
-GLB = {"set_order_case": set_order_case, "formatter_case": formatter_case, "history_case": history_case, "__name__": "harness.c16"}
+GLB = {"partial_order_case": partial_order_case, "set_order_case": set_order_case, "formatter_case": formatter_case, "history_case": history_case, "__name__": "harness.c16"}
 
 
 def conditions(tier):
     q = tier == "quick"
     conds = []
     import math
+
+    for n in (2, 3) if q else (2, 3, 4):
+        params = [(f"k{i}", "int") for i in range(2 * n)] + [("perm", "int")]
+        body = f"return partial_order_case({n}, [{', '.join(f'k{i}' for i in range(2 * n))}], perm)"
+        name = f"partialorder_{n}"
+        conds.append(Cond(name, mkfn(name, params, body, GLB, pre=[f"0 <= perm < {math.factorial(n)}"]), timeout=900, group="set-order",
+                          bounds=f"{n} elements whose `<` is the product order of two symbolic ints (a partial order, like sets: sorted() does not raise), second iteration order = any of the {math.factorial(n)} permutations"))
 
     for n in (2, 3, 4) if q else (2, 3, 4, 5):
         for with_str in (False, True):
